@@ -303,14 +303,15 @@ func runC22(s C22Scenario) pbt.Outcome {
 }
 
 const c22Rule = "struct types built with reflect.StructOf: key field + shape in {key-only, single `value` field, map-body with 1..6 tagged fields, profile with 1..6 fields}; " +
-	"field kinds string/bool/int8..int64/int/uint8..uint64/uint/float32/float64/[]byte/time.Time/[]string/[]int64/[]uint32/map[string]string/map[string]int64/*struct; " +
+	"field kinds string/bool/int8..int64/int/uint8..uint64/uint/float32/float64/[]byte/time.Time/[]string/[]int64/[]uint32/map[string]string/map[string]int64/*struct, " +
+	"and NAMED types over them: json.RawMessage, net.IP, local named []byte / string / int8 / float64 / bool / []string / map[string]int64, time.Duration, pointers to named string / int8 / Duration; " +
 	"optional createdAt/createdBy/updatedAt/updatedBy/expireAt fields with/without omitempty; map-body tag names random identifiers (plus reserved-substring names when that finding is closed); " +
 	"values incl. zero values, nil and empty containers, NaN/Inf, extreme ints; flows CatalogSave / Create / Save+Save / Save+Update (ProfileSave once or twice), " +
 	"reads CatalogRead / ReadMany / ReadBatch (ProfileRead), GOB and MessagePack swamps, optional close+reload before the read, optional metamorphic tag rename; " +
 	"non-trivial = >= 2 fields besides the key AND >= 1 zero/empty value; distinct = hash of the scenario"
 
 func c22Cfg(facet string) c22GenCfg {
-	cfg := c22GenCfg{trickyTags: true, kinds: append([]string{}, c22Kinds...), shapes: []string{"keyonly", "value", "value", "mapbody", "mapbody", "mapbody", "profile", "profile"}}
+	cfg := c22GenCfg{trickyTags: true, kinds: append(append([]string{}, c22Kinds...), c22NamedKindList...), shapes: []string{"keyonly", "value", "value", "mapbody", "mapbody", "mapbody", "profile", "profile"}}
 	note := func(open bool, what string) bool {
 		if open && facet != "" {
 			pbt.Excluded("C22", facet, what)
